@@ -591,6 +591,32 @@ def r9_every_use_statement_applied(ctx, rep):
                     f"the loop iterates `{ast.unparse(loop.iter)[:60]}`, which is not derived from the recorded `uses`"), py.nloc(loop))
     if n < 2:
         raise AnalysisError(f"only {n} import loop(s) calling get_used_entities found")
+    # after the imports the recorded pairs are replaced by the modules themselves - once each, however many USE statements
+    # named them (sibling agreement: FortranCodeUnit.correlate builds a set)
+    m = 0
+    for mod, fn in py.all_functions():
+        if mod != "sourceform" or not any(call_name(c).split(".")[-1] == "get_used_entities" for c in py.walk_calls(fn)):
+            continue
+        for t, v in astq.assignments(fn, "self.uses"):
+            if v is None or (isinstance(v, (ast.List, ast.Tuple)) and not v.elts):
+                continue
+            m += 1
+            unique = isinstance(v, (ast.SetComp,)) or (isinstance(v, ast.Call) and call_name(v) in ("set", "frozenset", "dict.fromkeys", "sorted")
+                                                         and (call_name(v) != "sorted" or any(isinstance(x, (ast.SetComp, ast.Set)) or
+                                                                                              (isinstance(x, ast.Call) and call_name(x) == "set")
+                                                                                              for x in ast.walk(v)))) or \
+                (isinstance(v, ast.Call) and call_name(v) == "list" and v.args and (
+                    (isinstance(v.args[0], ast.Call) and call_name(v.args[0]) in ("dict.fromkeys", "set")) or
+                    # list(<a local dict / set>): its keys, once each
+                    (isinstance(v.args[0], ast.Name) and any(
+                        isinstance(d, (ast.Dict, ast.DictComp, ast.Set, ast.SetComp)) or (isinstance(d, ast.Call) and call_name(d) in ("dict", "set"))
+                        for _t, d in astq.assignments(fn, v.args[0].id) if d is not None))))
+            rep.ob(f"{py.qualname(fn)}: the used modules are listed once each", unique,
+                   "self.uses becomes a collection without duplicates" if unique else
+                   f"`self.uses = {ast.unparse(v)[:50]}` keeps one entry per USE statement: a module named in two USE statements is shown "
+                   f"twice in the unit's \"Uses\" box (and gets two edges)", py.nloc(t))
+    if m < 2:
+        raise AnalysisError("the replacement of the recorded USE pairs by the modules was not found in both implementations")
 
 
 RULES = [
